@@ -22,6 +22,7 @@ func genRem(g *Gen) {
 	}
 	if !g.Quick() {
 		genRemBig(g)
+		genRemBigReorg(g)
 	}
 }
 
@@ -141,6 +142,7 @@ func genRemHistory(g *Gen, idx int) {
 		t.live = t.survivors(w)
 		// ---- after the removal
 		t.op("residue-after", "residue %s", w)
+		t.op("dangling-after", "dangling")
 		t.op("pendmention", "pendmention %s", w)
 		t.op("wallets", "wallets")
 		t.op("use-removed", "use %s", w)
@@ -163,6 +165,7 @@ func genRemHistory(g *Gen, idx int) {
 		t.drain1()
 		t.observe1(t.live, true)
 		t.op("residue-later", "residue %s", w)
+		t.op("dangling-later", "dangling")
 		// ---- the same mnemonic can be imported again
 		if r.Intn(2) == 0 {
 			t.op("reimport", "import %s mn %d", w, len(l.addrs[w]))
@@ -240,6 +243,64 @@ func genRemBig(g *Gen) {
 	t.op("wallets", "wallets")
 	t.observe1([]string{"W2"}, true)
 	g.Stats["more-credits-than-one-step"]++
+}
+
+// genRemBigReorg (defect D45): a removal that needs two steps (20 003 credits of W2 in one coinbase, which also
+// pays the survivor W1) with a REORGANISATION BETWEEN THE STEPS that rolls back the block of that coinbase, i.e. a
+// block connected before the first step.  X3 spends the first and the last coin of W2: the first step deletes the
+// credits 0..19999 in key order, with the debit (X3, 0); the debit (X3, 1) of the last coin stays for the second
+// step.  Before the repair the first step also erased X3's tx record (nobody else needs it), the reorganisation
+// could not roll X3 back, rolled the coinbase back (W1 needs its record) and the debit (X3, 1) stayed for ever:
+// `dangling` = d:X3:1 (specification: -).
+func genRemBigReorg(g *Gen) {
+	g.Reset()
+	op := g.Op
+	op("params", "params 4 3")
+	op("wallet", "wallet W1")
+	op("addr", "addr W1 A1 std")
+	op("wallet", "wallet W2")
+	op("addr", "addr W2 A2 std")
+	outs := make([]string, 0, 20004)
+	for i := 0; i < 20003; i++ {
+		outs = append(outs, "A2:1")
+	}
+	outs = append(outs, "A1:7")
+	op("tx-big", "tx CBIG 1 cb %s", strings.Join(outs, ";"))
+	op("block", "block B1 G CBIG")
+	op("submit", "submit B1")
+	op("notify", "notify B1")
+	op("fill", "fill 4 F 1")
+	op("tx", "tx C2 2 cb X1:500")
+	op("tx", "tx X3 3 CBIG:0;CBIG:20002 X1:1")
+	op("block", "block B6 F.4 C2;X3")
+	op("submit", "submit B6")
+	op("notify", "notify B6")
+	op("q-bal", "bal W2 1")
+	op("q-bal", "bal W1 1")
+	op("dangling-before", "dangling")
+	op("remove", "remove W2 good")
+	op("tasks", "tasks")
+	op("rembegin", "rembegin W2")
+	op("remstep-big", "remstep")
+	op("dangling-between", "dangling")
+	op("residue-between", "residue W2")
+	for i := 0; i < 6; i++ {
+		op("detach", "detach")
+	}
+	op("tx", "tx C1b 11 cb X1:5")
+	op("block", "block B1b G C1b")
+	op("submit", "submit B1b")
+	op("fill", "fill 6 H 1")
+	op("synced", "synced")
+	op("dangling-reorg-between-steps", "dangling")
+	op("q-bal", "bal W1 1")
+	op("remstep-big", "remstep")
+	op("remstep-extra", "remstep")
+	op("dangling-after", "dangling")
+	op("residue-after", "residue W2")
+	op("wallets", "wallets")
+	op("q-bal", "bal W1 1")
+	g.Stats["reorg-below-first-step-between-steps"]++
 }
 
 // genRemMixed: transactions with inputs from BOTH the wallet being removed (A) and a survivor (B), in both
